@@ -60,6 +60,7 @@ def make_run(cfg):
             order = {}
             nocorr_requests = set()
             noann_tags = set()
+            owbatch_tags = set()
             client_addrs = {}      # client index -> local addresses of the connections it used
 
             def make_client(ci, script):
@@ -127,6 +128,13 @@ def make_run(cfg):
                                     p._pyroBind()
                                     protocol.SendingMessage.ping(p._pyroConnection)
                                     r = ("ok", None)
+                                elif step == "ow_batch":
+                                    # a oneway batch: its members run with this request's context, and before this client's next call is served
+                                    b = client.BatchProxy(p)
+                                    b.ret_update(tag + "a")
+                                    b.plain(tag + "b")
+                                    owbatch_tags.add(tag)
+                                    r = ("ok", b(oneway=True))
                                 elif step == "batch":
                                     b = client.BatchProxy(p)
                                     b.ret_update(tag + "a")
@@ -194,13 +202,26 @@ def make_run(cfg):
                         V("context-of-other-request|correlation-id-reused-for-request-without-one|%s" % srv, "method %s(%s) saw correlation id %s, which belongs to another request" % (k, tag, rec["corr"]))
                 elif rec["corr"] != str(uuid.UUID(int=(ci + 1) * 1000 + n)):
                     V("context-of-other-request|correlation-id|%s|%s" % (srv, where), "method %s(%s) saw correlation id %s" % (k, tag, rec["corr"]))
-                want_flags_oneway = (k == "ow_set")
+                want_flags_oneway = (k == "ow_set") or base in owbatch_tags
                 if bool(rec["flags"] & protocol.FLAGS_ONEWAY) != want_flags_oneway:
                     V("context-of-other-request|flags|%s|%s" % (srv, where), "method %s(%s) saw flags %r" % (k, tag, rec["flags"]))
                 if rec["ser"] != 1:
                     V("context-of-other-request|serializer|%s" % srv, "%r" % rec)
                 if rec["addr"] is not None and (rec["addr"][0] != "client"):
                     V("context-of-other-request|peer-address|%s" % srv, "%r" % (rec["addr"],))
+            # a oneway batch is executed before the same client's next request is served (like any batch; only single oneway calls get a thread)
+            for obt in owbatch_tags:
+                oci, on = int(obt[1:].split("-")[0]), int(obt.split("-")[1])
+                pos = {}
+                for idx, rec in enumerate(tgt.seen):
+                    t = rec["tag"]
+                    bt = t[:-1] if rec["kind"] in ("ret_update", "plain") and t[-1] in "ab" else t
+                    if bt.startswith("c%d-" % oci):
+                        pos.setdefault(int(bt.split("-")[1]), []).append(idx)
+                if on in pos:
+                    later = [i for m, idxs in pos.items() if m > on for i in idxs]
+                    if later and min(later) < max(pos[on]):
+                        V("oneway-batch-overtaken-by-later-call|%s" % srv, "members of the oneway batch %s ran at positions %r of the server log, the client's later calls at %r" % (obt, pos[on], sorted(later)))
             # sequence numbers and peers: compare with what the wire saw for that REQI
             reqi_to = {v: k for k, v in sent.items() if v is not None}
             for rec in tgt.seen:
@@ -285,6 +306,10 @@ def configs(quick):
     for server, pool, seqn in (("multiplex", 4, False), ("thread", 1, True), ("multiplex", 4, True)):
         out.append({"server": server, "pool": pool, "sequential": seqn, "scripts": [["plain", "ret_assign"], ["plain!nocorr", "ow_set!nocorr", "plain!nocorr"]], "p": 1, "r": 1, "horizon": 4000})
     out.append({"server": "multiplex", "pool": 4, "scripts": [["plain", "plain!nocorr", "raise_after_set!nocorr", "plain"]], "p": 0, "r": 1, "horizon": 4000})
+    # (c3) oneway batches
+    for server, pool in (("multiplex", 4), ("thread", 4)):
+        out.append({"server": server, "pool": pool, "scripts": [["ow_batch", "plain", "plain"], ["ret_assign", "plain"]], "p": 1, "r": 1, "horizon": 4000})
+        out.append({"server": server, "pool": pool, "scripts": [["plain", "ow_batch", "ret_update"]], "p": 1, "r": 2, "horizon": 4000})
     # (d) three clients
     out.append({"server": "multiplex", "pool": 4, "scripts": [["raise_after_set"], ["ow_set"], ["plain", "ping"]], "p": 1, "r": 1 if quick else 2, "horizon": 4000})
     out.append({"server": "multiplex", "pool": 4, "daemon_ann": True, "scripts": [["ret_assign", "plain"], ["raise_after_set", "plain"]], "p": 1, "r": 2, "horizon": 4000})
